@@ -157,6 +157,47 @@ R.add('L2.1', l21, [dict(via='message'), dict(via='datagram')], replay=replay_l2
       bounds='root field: pinned / foreign / garbage; payload: genuine / attacker-made; signature: genuine / by a foreign key / garbage / empty')
 
 
+# ------------------------------------------------------------------ L2.1b two hellos in one connect attempt
+def l21b():
+    """the client keeps being pumped after a refused hello: a second hello (any combination again, new
+    datagram or the same one) is judged exactly like the first - the pin and the state survive a refusal"""
+    clock = proto.clock_at(100.0)
+    root, evil_root, srv_eph, evil_eph = newkey('root'), newkey('evilroot'), newkey('srv_eph'), newkey('evil_eph')
+    c = conn.ClientServerConnection(('srv', 9))
+    c.clock = clock
+    c.setServerPublicKey(root.getPublicKey())
+    cb = Rec('connect')
+    c.connection_callback = cb
+    c._sendClientHello()
+    c.outgoing_messages = []
+    P = hello_payload(srv_eph.getPublicKey(), rope.fixed_blob('salt', 16), symint('token', 0, 2 ** 31 - 1))
+    P2 = hello_payload(evil_eph.getPublicKey(), rope.fixed_blob('salt2', 16), symint('token2', 0, 2 ** 31 - 1))
+    assume(Not(rope.rope_eq(P, P2)))
+    sigs = [root.sign(P), evil_root.sign(P2)]
+    any_genuine = False
+    for k in range(2):
+        rf = choose(2, 'root_field%d' % k)
+        combo = choose(3, 'combo%d' % k)        # 0 genuine, 1 attacker parameters self-signed, 2 attacker parameters + genuine signature
+        payload, signature = [(P, sigs[0]), (P2, sigs[1]), (P2, sigs[0])][combo]
+        msg = hello_message([root.getPublicKey().getBytes(), evil_root.getPublicKey().getBytes()][rf], payload, signature)
+        h = PacketHeader.create(True, 100, PacketType.SERVER_HELLO, SeqNum(5 + choose(2, 'same_seq%d' % k)), SeqNum(0), 0)
+        pkt = Packet.create(h, [conn.PendingMessage(SeqNum(5 + k), PacketType.SERVER_HELLO, msg, None, RetryMode.NONE)])
+        raw = pkt.to_bytes(None)
+        try:
+            c._recv_datagram(PacketHeader.from_bytes(False, raw), raw)
+        except Exception:
+            pass
+        any_genuine = any_genuine or combo == 0
+        accepted = (c.status == Status.CONNECTED) or (c.session_key_bytes is not None)
+        check(Or(Not(accepted), any_genuine), 'no sequence of forged hellos makes the client connect or adopt a key')
+        check(Or(any_genuine, True not in cb.calls), 'no success callback without a genuine hello')
+
+
+R.add('L2.1b', l21b, [{}], desc='two hellos delivered in one connect attempt (forged then forged / genuine, same or new datagram)',
+      expect=['no sequence of forged hellos makes the client connect or adopt a key'],
+      bounds='2 deliveries x (2 root fields x 3 payload/signature combinations x same/new datagram seq)')
+
+
 # ------------------------------------------------------------------ L2.2 honest run
 def l22():
     clock = proto.clock_at(100.0)
